@@ -9,10 +9,10 @@
 //!   new <bufsize> <off|dx>               start a stateful case (same construction)
 //!   reply <telegram>                     deliver one more diagnostics reply to the current case
 //!   scan <telegram>                      fresh DpScanner, the same reply delivered twice
-//!   iter0 <off|dx> <telegram>            fresh peripheral WITHOUT diag buffer, one reply, then the
-//!                                        unguarded `iter_diag_blocks().next()` → `<verdict> iter=<nolast|none|some|panic>`
+//!   iter0 <off|dx> <telegram>            fresh peripheral WITHOUT diag buffer, one reply, then a
+//!                                        single `iter_diag_blocks().next()` → `<verdict> iter=<nolast|none|some|panic>`
 //! Observation of diag/reply: `<accepted|rejected|panic> <state>`, of new: `ok <state>`,
-//!   state = `last=-` | `flags=<u16> ident=<u16> master=<-|n> ext=<none|hex> blocks=<na|list|panic|hang> dbg=<ok|panic>`
+//!   state = `last=-` | `flags=<u16> ident=<u16> master=<-|n> ext=<none|hex> blocks=<list|panic|hang> dbg=<ok|panic>`
 //!   block list: `-` or `;`-joined  id(<nbits>)[i,j,..] | ch:<module>,<channel>,<-|i|o|io>,<dtype>,<error> | dev:<hex>
 //!
 //! Mode `off`: every reply meets the peripheral in state Offline (after an accepted reply the
@@ -109,11 +109,6 @@ fn show_block(b: &dp::ExtDiagBlock) -> String {
 /// Collect the blocks with a step bound far above anything a terminating iterator can yield, so a
 /// non-terminating iterator is observed (as `hang`) instead of hanging the harness.
 fn show_blocks(ext: &dp::ExtendedDiagnostics) -> String {
-    // like the crate's own Debug impl: iterate only when a buffer exists (the unguarded call is the
-    // separate op `iter0`)
-    if !ext.is_available() {
-        return "na".to_string();
-    }
     match guarded(|| {
         let mut out = vec![];
         let mut it = ext.iter_diag_blocks();
